@@ -78,6 +78,10 @@ J13(o, P, D) ==
   ELSE IF o.abort = "" /\ o.solved /\ ~D.start /\ D.ab = {} /\ D.solved /\
           ~Denotation(P, [i \in ValInputReads(o, P) |-> o.cfg[i]]).solved
        THEN "success depends on an input no line read"
+  \* the other direction: the run stopped although every input that some line reads is supplied and valid -- what stopped it can only be
+  \* the (invalid) value of an input that NO line reads, which is not required for success
+  ELSE IF o.abort # "" /\ ~PromptAbort(o) /\ ~D.start /\ D.ab = {} /\ D.solved /\ (\E i \in DOMAIN o.cfg0 : o.cfg0[i] = 2)
+       THEN "the run was stopped by the value of an input no line read"
   ELSE ""
 
 Distinct(q) == Cardinality(SeqToSet(q))
